@@ -2006,10 +2006,38 @@ func TestVerif_C34(t *testing.T) {
 		runCase(c, cfg)
 	})
 
+	// Bodies written in pieces of 16 KiB and more: every piece is a DATA frame whose length field
+	// is a four-octet varint, and with a different piece length in every case the frames start at
+	// ever different offsets of the QUIC stream, so that the length field comes to lie across the
+	// end of a packet's data and across the 4096-octet blocks the receiving stream buffers in.
+	// Perfect network; the reader is faster than the network in some cases and slower in others.
+	nl := r.N(200, 2500)
+	r.CasesParallel("large-frames", nl, 8, func(c *verifrt.Case) {
+		rng := c.Rng
+		cfg := &v34Config{Faults: vhnFaults{BaseDelayMs: []int{0, 1, 20}[rng.IntN(3)]}, FaultPhaseMs: 5000, CleanBoundS: 120, NetSeed: rng.Uint64()}
+		ex := v34GenExchange(rng, 0, 2000, 6)
+		if ex.Method == "HEAD" {
+			ex.Method = "GET"
+		}
+		ex.Status, ex.EarlyHints = 200, false
+		f := 16384 + rng.IntN(4300)
+		ex.RespBody = int64(f)*int64(4+rng.IntN(5)) + int64(rng.IntN(f))
+		ex.RespKind, ex.RespDeclared = v34RespExact, ex.RespBody
+		if rng.IntN(2) == 0 {
+			ex.RespKind, ex.RespDeclared = v34RespUndeclared, -1
+		}
+		ex.RespChunkFixed, ex.RespChunkMax = f, f
+		ex.RespTrailerUnset = ""
+		cfg.Ex = []*v34Exchange{ex}
+		runCase(c, cfg)
+		r.Event("large_frame_cases", 1)
+	})
+	r.Require("large_frame_cases", int64(nl))
+
 	r.CasesParallel("exchange", n, 8, func(c *verifrt.Case) {
 		runCase(c, v34GenConfig(c.Rng, maxEx, maxBody, maxHeaders))
 	})
-	n += nk + nr + nz + nf
+	n += nk + nr + nz + nf + nl
 	r.Require("runs_completed", int64(n*6/10))
 	r.Require("handler_observations_checked", int64(n))
 	r.Require("client_observations_checked", int64(n))
